@@ -6,6 +6,7 @@ import (
 	"fmt"
 	"os"
 	"os/exec"
+	"regexp"
 	"strings"
 	"sync"
 	"time"
@@ -15,14 +16,22 @@ type solverSpec struct {
 	name string
 	args func(timeoutS int, file string) []string
 	pre  string
+	lean bool // feed the script without the value-range axioms of heap versions that are neither entry, current nor in the goal
 }
 
+// leanSolver races next to the first solver on the reduced script (fewer assumptions: an unsat answer is still a proof;
+// other answers of it are ignored).
+// useLean: measured on this code base the extra racer does not pay for the CPU it takes from the other solvers; off.
+const useLean = false
+
+var leanSolver = solverSpec{"z3-new(lean)", func(t int, f string) []string { return []string{"z3-new", fmt.Sprintf("-T:%d", t), f} }, "", true}
+
 var solvers = []solverSpec{
-	{"z3-new", func(t int, f string) []string { return []string{"z3-new", fmt.Sprintf("-T:%d", t), f} }, ""},
+	{"z3-new", func(t int, f string) []string { return []string{"z3-new", fmt.Sprintf("-T:%d", t), f} }, "", false},
 	{"cvc5", func(t int, f string) []string {
 		return []string{"cvc5", fmt.Sprintf("--tlimit=%d", t*1000), "--full-saturate-quant", f}
-	}, "(set-logic ALL)\n"},
-	{"z3", func(t int, f string) []string { return []string{"z3", fmt.Sprintf("-T:%d", t), f} }, ""},
+	}, "(set-logic ALL)\n", false},
+	{"z3", func(t int, f string) []string { return []string{"z3", fmt.Sprintf("-T:%d", t), f} }, "", false},
 }
 
 func (sc *Script) render(ob *Obligation, pre string, model bool) string {
@@ -31,6 +40,15 @@ func (sc *Script) render(ob *Obligation, pre string, model bool) string {
 
 // renderOpt: with qfOnly the quantified facts are left out (fewer assumptions: an unsat answer is still a proof).
 func (sc *Script) renderOpt(ob *Obligation, pre string, model bool, qfOnly bool) string {
+	return sc.renderSel(ob, pre, model, qfOnly, false)
+}
+
+var heapverSymRe = regexp.MustCompile(`\(select (\|[^|]+\|) [oa]\)`)
+
+// renderSel: with lean the value-range/allocation axioms of heap versions (tag heapver) are kept only for the entry
+// versions, the versions current at the obligation and versions mentioned by the goal. Leaving facts out never makes an
+// unsat answer wrong; an undecided lean attempt is followed by the full one.
+func (sc *Script) renderSel(ob *Obligation, pre string, model bool, qfOnly bool, lean bool) string {
 	var b strings.Builder
 	if model {
 		b.WriteString("(set-option :produce-models true)\n")
@@ -47,6 +65,14 @@ func (sc *Script) renderOpt(ob *Obligation, pre string, model bool, qfOnly bool)
 		}
 		if qfOnly && (strings.Contains(f, "(forall ") || strings.Contains(f, "(exists ")) {
 			continue
+		}
+		if lean && ob.Cur != nil && strings.Contains(f, "_heapver ") {
+			if m := heapverSymRe.FindStringSubmatch(f); m != nil {
+				sym := m[1]
+				if !strings.HasSuffix(sym, "@0|") && !ob.Cur[sym] && !strings.Contains(ob.Goal, sym) && !strings.Contains(ob.Guard, sym) {
+					continue
+				}
+			}
 		}
 		b.WriteString("(assert ")
 		b.WriteString(f)
@@ -171,11 +197,14 @@ func dischargeCore(sc *Script, ob *Obligation, timeoutS int, dir string, all boo
 	}
 	ctx, cancel := context.WithCancel(context.Background())
 	defer cancel()
-	answers := make(chan solverAnswer, len(solvers))
+	answers := make(chan solverAnswer, len(solvers)+1)
 	start := func(sp solverSpec) {
 		go func() {
-			script := sc.render(ob, sp.pre, false)
+			script := sc.renderSel(ob, sp.pre, false, false, sp.lean)
 			st, out, secs := runSolver(ctx, sp, script, timeoutS, dir)
+			if sp.lean && st != "unsat" {
+				st = "unknown" // a model of the reduced script means nothing
+			}
 			answers <- solverAnswer{sp, st, out, secs}
 		}()
 	}
@@ -196,6 +225,11 @@ func dischargeCore(sc *Script, ob *Obligation, timeoutS int, dir string, all boo
 	}
 	start(solvers[0])
 	started := 1
+	extra := 0
+	if useLean && !all && ob.Kind != "canary" && ob.Cur != nil {
+		start(leanSolver)
+		extra = 1
+	}
 	headStart := time.NewTimer(1500 * time.Millisecond)
 	if all {
 		headStart.Reset(0)
@@ -203,7 +237,7 @@ func dischargeCore(sc *Script, ob *Obligation, timeoutS int, dir string, all boo
 	defer headStart.Stop()
 	var notes []string
 	got := 0
-	for got < started || started < len(solvers) {
+	for got < started+extra || started < len(solvers) {
 		select {
 		case <-headStart.C:
 			for _, sp := range solvers[started:] {
@@ -235,7 +269,7 @@ func dischargeCore(sc *Script, ob *Obligation, timeoutS int, dir string, all boo
 				ob.Output = strings.Join(notes, "; ")
 				return
 			}
-			if got == started && started < len(solvers) {
+			if got == started+extra && started < len(solvers) {
 				// the first solver gave up early: bring in the others now
 				for _, sp := range solvers[started:] {
 					start(sp)
